@@ -71,6 +71,13 @@ def reqOp (cv sv : Nat) (authOk : Bool) (b : Block) (body : Bytes) (trailers : B
       else "h2 " ++ showBlock (formatH2Request r false) ++ " " ++ showBytes body ++ " -"
     | _ => "bad-op"
 
+/-- the streamed HTTP/2 -> HTTP/1 request conversion (flow.request.stream) -/
+def reqStreamedOp (authOk : Bool) (b : Block) (body : Bytes) : String :=
+  if !h2ValidReq b || !h2ClOk false b body.length then "reject"
+  else match h2ToH1Streamed authOk b [body] with
+    | none => "reject"
+    | some bs => "h1 " ++ showBytes bs
+
 def respOp (sv cv : Nat) (method : Bytes) (reqTrailers : Bool) (b : Block) (body : Bytes) (trailers : Block) : String :=
   if sv = 2 then
     -- hyper-h2 remembers the request method from the last HEADERS frame it sent on the stream: request trailers erase it
@@ -98,6 +105,10 @@ def stepLine (line : String) : String :=
     match cv.toNat?, sv.toNat?, parseBlock blk, hexOr body, parseBlock trl with
     | some cv, some sv, some b, some bd, some t => reqOp cv sv (ok == "1") b bd t
     | _, _, _, _, _ => "bad-op"
+  | ["reqs", ok, blk, body] =>
+    match parseBlock blk, hexOr body with
+    | some b, some bd => reqStreamedOp (ok == "1") b bd
+    | _, _ => "bad-op"
   | ["resp", sv, cv, m, rt, blk, body, trl] =>
     match sv.toNat?, cv.toNat?, hexOr m, parseBlock blk, hexOr body, parseBlock trl with
     | some sv, some cv, some m, some b, some bd, some t => respOp sv cv m (rt == "1") b bd t
